@@ -227,8 +227,16 @@ impl State {
     }
 
     fn add_new_observers(&self) {
-        let mut no = self.new_observers.borrow_mut();
-        for weak in no.drain(..) {
+        // The list is not kept borrowed: linking an observer can run user code (the observability
+        // callback of an expert node), which may create observers of its own (linked in this same
+        // pass) or unsubscribe through the state.
+        let mut next = 0;
+        loop {
+            let weak = match self.new_observers.borrow().get(next) {
+                Some(weak) => weak.clone(),
+                None => break,
+            };
+            next += 1;
             let Some(obs) = weak.upgrade() else { continue };
             match obs.state().get() {
                 ObserverState::InUse | ObserverState::Disallowed => panic!(),
@@ -253,6 +261,7 @@ impl State {
                 }
             }
         }
+        self.new_observers.borrow_mut().clear();
     }
 
     // not required. We don't have a GC with dead-but-still-participating objects to account for.
